@@ -81,3 +81,11 @@ claim("C08",
       "has-free-parameters flag evaluated on every (group, letter).",
       "Real arithmetic for tolerances; _search_periodic_positions under an assumed contract (its cell.T metric is not examined); letters/orbits from spglib (A-SPG); the guard obligations run on sample shapes (4 positions), the per-entry obligations on all entries.",
       "mechanically extracted blocks executed symbolically per table entry + z3; exhaustive", "DESIGN.md §3 C08")
+
+claim("C05",
+      "MatID's own contribution to the conventional cell ('spglib's standardised cell moved by one tabulated normalizer') is proved: _find_wyckoff_ground_state is executed from its real source "
+      "for all 230 groups with symbolic atomic positions (bounded family of occupancy patterns): the stored positions are get_wrapped_positions of exactly A.x + t for an entry of this group's table "
+      "(or the identity), the letters are permuted by the same entry, lattice / species / atom count of spglib's system are untouched (copy), and in Sohncke groups the applied entry is proper. "
+      "Table lemmas (exhaustive): every normalizer maps the group onto itself, preserves every metric tensor of the crystal system, and is proper in Sohncke groups. _get_spglib_conventional_system uses exactly spglib's std cell.",
+      "spglib's standardisation is an assumed contract (A-SPG); the 'independent symmetry search on the result' is replaced by the table lemmas; occupancy patterns are a bounded family (single letters, letter pairs), positions symbolic.",
+      "symbolic execution of the real selection/application code per group + exhaustive table obligations (z3, exact rationals)", "DESIGN.md §3 C05")
